@@ -2,10 +2,11 @@
 // whose examples carry unique ids, prints both sets before/after every call (for the Lean driver)
 // and the verdict of its own multiset oracle.
 //
-// request  : holdout <n> <perc> <prefill_va> <vseed> <run> <run> ...
+// request  : holdout <n> <perc> <prefill_va> <vseed> <run> <run> ...        (vseed % 3 == 0: no evaluator given)
 //            dss <n> <gap> <initial_va> <runs> <gens> <vseed> <profile_seed>
+//            wsum <n> <seed>       (only meaningful in a build with asserts / debug log: NDEBUG off)
 // answer   : <step> ## <oracle> ;; <step> ## <oracle> ;; ...
-//   step   : H <perc> <run> | pre_tr | pre_va | post_tr | post_va                  (ids)
+//   step   : H <perc> <run> | pre_tr | pre_va | post_tr | post_va | clears hasEva  (ids)
 //            D init <run> | pre_tr | pre_va | post_tr | post_va | ret ct cv        (id:age:diff)
 //            D shake <gap> <g> | ... ; D close <run> | ...
 //   oracle : "fine" or a space separated list of failed clauses
@@ -17,6 +18,7 @@
 
 #include <algorithm>
 #include <map>
+#include <sstream>
 
 using namespace vita;
 
@@ -125,14 +127,18 @@ std::string do_holdout(const std::vector<std::string> &t)
     p.data(dataset_t::validation).push_back(make_example(n + i + 1));
   p.env.validation_percentage = perc;
 
-  holdout_validation v(p);
+  counting ct;
+  const bool has_eva(std::stoul(t[4]) % 3 != 0);
+  holdout_validation v(p, has_eva ? &ct : nullptr);
 
   std::string out;
   for (std::size_t k(5); k < t.size(); ++k)
   {
     const unsigned run(std::stoul(t[k]));
     const snap ptr(take(p.data(dataset_t::training))), pva(take(p.data(dataset_t::validation)));
+    const unsigned c0(ct.n);
     v.init(run);
+    const unsigned dt(ct.n - c0);
     const snap qtr(take(p.data(dataset_t::training))), qva(take(p.data(dataset_t::validation)));
 
     std::vector<std::string> bad;
@@ -142,13 +148,16 @@ std::string do_holdout(const std::vector<std::string> &t)
     {
       const std::size_t share(std::max<std::size_t>(ptr.size() * (100 - perc) / 100, 1));
       if (qtr.size() != share) bad.push_back("share");
+      // the split changes the training set: cached fitness values must be dropped (when an evaluator is known)
+      if (dt != (has_eva ? 1u : 0u)) bad.push_back("report");
     }
-    else if (show_ids(ptr) != show_ids(qtr) || show_ids(pva) != show_ids(qva))
+    else if (show_ids(ptr) != show_ids(qtr) || show_ids(pva) != show_ids(qva) || dt)
       bad.push_back("later-run");
 
     if (!out.empty()) out += " ;; ";
     out += "H " + std::to_string(perc) + " " + std::to_string(run) + " | " + show_ids(ptr) + " | "
-           + show_ids(pva) + " | " + show_ids(qtr) + " | " + show_ids(qva) + " ## " + verdict(bad);
+           + show_ids(pva) + " | " + show_ids(qtr) + " | " + show_ids(qva) + " | " + std::to_string(dt)
+           + " " + std::to_string(int(has_eva)) + " ## " + verdict(bad);
   }
   return out;
 }
@@ -229,15 +238,27 @@ std::string do_dss(const std::vector<std::string> &t)
     for (unsigned g(0); g < gens; ++g)
     {
       // "arbitrary evaluations": what evaluators do to the counters between two shakes
-      const unsigned mode(prof.below(4));
+      // modes 4..7 (rare): counters at the limits of their types – difficulty near 2^64 (the weight sum
+      // wraps), ages whose cube wraps (2^22: weight 0, weight_sum can be 0) or that wrap themselves
+      const unsigned mode(prof.below(16) == 0 ? 4 + prof.below(4) : prof.below(4));
       for (auto &e : tr)
         switch (mode)
         {
         case 0:  e.difficulty += prof.below(4);  break;
         case 1:  if (prof.below(5) == 0) e.difficulty += 1000 + prof.below(100000);  break;
         case 2:  break;
+        case 4:  e.difficulty = ~std::uintmax_t(0) - prof.below(3);  break;
+        case 5:  e.difficulty = 0;  break;
+        case 6:  if (prof.below(2)) e.difficulty = (std::uintmax_t(1) << 63) + prof.below(2);  break;
+        case 7:  e.difficulty += prof.below(50);  break;
         default: e.difficulty += prof.below(50);
         }
+      if (mode == 5)        // every weight is 0 after the ++age of the next reshuffle
+        for (auto *d : {&tr, &va})
+          for (auto &e : *d) { e.age = (1u << 22) - 1;  e.difficulty = 0; }
+      if (mode == 7)        // ages at the end of `unsigned`
+        for (auto &e : va)
+          if (prof.below(2)) e.age = ~0u - prof.below(2);
 
       step("D shake " + std::to_string(gap) + " " + std::to_string(g), 1, g,
            [&] { return d.shake(g); });
@@ -246,6 +267,66 @@ std::string do_dss(const std::vector<std::string> &t)
     step("D close " + std::to_string(r), 2, 0, [&] { d.close(r); return false; });
   }
   return out;
+}
+
+// weight sum as the library computes it (debug log of shake_impl), as this harness computes it, and
+// the counters, for the Lean model (`W` line).  Needs a build with NDEBUG off.
+std::string do_wsum(const std::vector<std::string> &t)
+{
+  const unsigned n(std::stoul(t[1]));
+  verif::splitmix r(std::stoull(t[2]));
+  random::seed(std::stoul(t[2]) & 0x7fffffff);
+
+  src_problem p;
+  for (unsigned i(0); i < n; ++i)
+  {
+    auto e(make_example(i + 1));
+    if (i == 0) { e.age = 1;  e.difficulty = r.next(); }           // the training frame: average age 1
+    else
+    {
+      const unsigned m(r.below(4));
+      e.age = m == 0 ? r.below(5) : m == 1 ? (1u << 21) + r.below(1u << 22) : m == 2 ? ~0u - 1 - r.below(3)
+                                                                             : r.below(3000000);
+      e.difficulty = r.below(3) ? r.next() : r.below(100);
+    }
+    p.data(i == 0 ? dataset_t::training : dataset_t::validation).push_back(e);
+  }
+  p.env.dss = 1;
+  counting ct, cv;
+  dss d(p, ct, cv);
+
+  // expected: counters after the ++age of shake(), order = validation then training (move_to_validation)
+  std::string items;
+  std::uintmax_t own(0);
+  for (auto *f : {&p.data(dataset_t::validation), &p.data(dataset_t::training)})
+    for (const auto &e : *f)
+    {
+      const unsigned a(e.age + 1);
+      own += e.difficulty + std::uintmax_t(a) * a * a;
+      items += (items.empty() ? "" : " ") + std::to_string(canon(e)) + ":" + std::to_string(a) + ":"
+               + std::to_string(e.difficulty);
+    }
+  if (own == 0)
+    return "wsum skipped-zero | " + items;      // assert(weight_sum) would abort
+
+  std::ostringstream cap;
+  auto *old(std::cout.rdbuf(cap.rdbuf()));
+  const auto lvl(log::reporting_level);
+  log::reporting_level = log::lDEBUG;
+  d.shake(1);
+  log::reporting_level = lvl;
+  std::cout.rdbuf(old);
+
+  const std::string txt(cap.str());
+  const auto pos(txt.find("weight sum: "));
+  std::string seen("none");
+  if (pos != std::string::npos)
+  {
+    seen.clear();
+    for (auto i(pos + 12); i < txt.size() && std::isdigit(static_cast<unsigned char>(txt[i])); ++i)
+      seen += txt[i];
+  }
+  return "wsum " + seen + " " + std::to_string(own) + " | " + items;
 }
 
 }  // namespace
@@ -263,6 +344,7 @@ int main()
     {
       if (t.size() >= 6 && t[0] == "holdout") ans = do_holdout(t);
       else if (t.size() == 8 && t[0] == "dss") ans = do_dss(t);
+      else if (t.size() == 3 && t[0] == "wsum") ans = do_wsum(t);
     }
     catch (const std::exception &e)
     {
